@@ -18,6 +18,8 @@ def describe(tier):
         "key and compares to_array(dtype=int) and an independent reader with the NumPy model; operands byte-identical; copies share no storage. "
         "Violating transitions are reported and not expanded." % (b["R"], b.get("R1", b["R"]), b["C"], b["prec_max"]),
         "assumptions": [
+            ("thorough tier: states with more than 4 cells are expanded only while their values stay inside {0,1,2} (every transition into a state outside that bound is still checked); "
+             "without this value bound every array over five values becomes reachable for the (3,2) and (2,3) shapes") if b.get("value_bound_cells") else "quick tier: no value bound - every reachable state is expanded",
             "the visited key is the concrete content up to dict insertion order" + (" (thorough: every state is also expanded with entries inserted in reverse order and successor sets must coincide)" if b.get("two_orders") else ""),
             "set-update operands respect the documented exclusivity precondition (a union only adds rows currently holding the common value in that column)",
         ],
